@@ -1,7 +1,7 @@
 """C15 - unfill inverts fill and recovers indents, width and line ending."""
 from ..sym import sym_of, subterms
 from ..engine import AnchorMissing, loop_models
-from ..poly import poly, fact_nf
+from ..poly import poly, fact_nf, GT0, GE0, EQ0, NE0
 from ..paths import loop_system, PathView, loop_state_vars, entry_value, contradictory
 from ..describe import describe
 from ..engines.schemas import range_parts, index_iter_base
@@ -94,8 +94,8 @@ def _check(prog, rep):
         r4.check(okw, "width-step", "width' = max(width, display_width(line))", D(nw),
                  "the detected width becomes %s; expected max(width, display_width(line))" % D(nw), site=site)
         nfs = [fact_nf(f) for f in tr.facts if f[0][0] == "cmp"]
-        is0 = ("eq0", poly(idx)) in nfs
-        is1 = ("eq0", poly(idx) - poly(("int", 1))) in nfs
+        is0 = EQ0(poly(idx)) in nfs
+        is1 = EQ0(poly(idx) - poly(("int", 1))) in nfs
         ni, ns = tr.next[ipk], tr.next[spk]
         # discover the prefix term from the idx == 0 transition
         if is0:
@@ -119,8 +119,8 @@ def _check(prog, rep):
             continue
         site = site_of_block(body, tr.path[-2])
         nfs = [fact_nf(f) for f in tr.facts if f[0][0] == "cmp"]
-        is0 = ("eq0", poly(idx)) in nfs
-        is1 = ("eq0", poly(idx) - poly(("int", 1))) in nfs
+        is0 = EQ0(poly(idx)) in nfs
+        is1 = EQ0(poly(idx) - poly(("int", 1))) in nfs
         ni, ns = tr.next[ipk], tr.next[spk]
         if is0:
             continue
@@ -136,9 +136,16 @@ def _check(prog, rep):
             continue
         if prefix is not None and ns == prefix:
             plen = poly(("call", "str::len", (prefix,)))
-            lt = any(k == "gt0" and (p + plen).is_const() is False and len((p + plen).m) == 1 and
-                     all(len(mon) == 1 and mon[0][0] == "call" and mon[0][1] == "str::len" and c == 1 for mon, c in (p + plen).m.items())
-                     for k, p in nfs)
+            from ..poly import Poly
+            lt = False
+            for k, p in nfs:
+                if k != "ge0":
+                    continue
+                q = p + Poly.const(1) + plen      # canonical form of  len(X) - len(prefix) > 0
+                if len(q.m) == 1:
+                    (mon, c), = q.m.items()
+                    if c == 1 and len(mon) == 1 and mon[0][0] == "call" and mon[0][1] == "str::len":
+                        lt = True
             r5.check(lt, "shorter-prefix", "the whole prefix replaces the indent only when it is shorter", "prefix.len() < indent.len()",
                      "the subsequent indent is replaced by the line's prefix without prefix.len() < subsequent_indent.len() on the path", site=site)
             continue
@@ -187,7 +194,7 @@ def _check(prog, rep):
             continue
         site = site_of_block(body, tr.path[-2])
         nfs = [fact_nf(f) for f in tr.facts if f[0][0] == "cmp"]
-        first = ("eq0", poly(jidx)) in nfs
+        first = EQ0(poly(jidx)) in nfs
         evs = [(n, a[1]) for (_b, n, a, _r) in tr.events]
         ind = II_end if first else SI_end
         sl = ("call", "Index::index", (jline, ("adt", "std::ops::RangeFrom", "RangeFrom", (("start", ("call", "str::len", (ind,))),))))
